@@ -183,6 +183,10 @@ func drawInput(t *rapid.T, typ string, base *model.Msg) ([]byte, *model.Msg, str
 		return b, v, "mutated-" + k
 	case 1:
 		return rapid.SliceOfN(rapid.Byte(), 0, 30).Draw(t, "raw"), v, "raw"
+	case 2:
+		// declared field numbers (oneof members preferred) under a wire type the field never has:
+		// valid input that every implementation must keep as unknown fields
+		return gen.InjectWrongWire(t, md, enc), v, "wrong-wiretype"
 	}
 	return enc, v, "valid"
 }
@@ -190,7 +194,7 @@ func drawInput(t *rapid.T, typ string, base *model.Msg) ([]byte, *model.Msg, str
 func TestDifferential(t *testing.T) {
 	pbt.Run(t, pbt.Prop[diffCase]{
 		Name: "fast-vs-reflection",
-		Rule: "types: all linked message types; A and B: perturbed valid encodings of generated contents (B derived from A's content half of the time so that merges collide), 1/6 mutated inside nested payloads, 1/6 raw bytes. non-trivial = A decodes and holds >= 2 of {extension, map, oneof, group, packed, unknown, submessage}",
+		Rule: "types: all linked message types; A and B: perturbed valid encodings of generated contents (B derived from A's content half of the time so that merges collide), 1/6 mutated inside nested payloads, 1/6 raw bytes, 1/6 with records that carry a declared field's number (oneof members preferred) under a wire type the field never has. non-trivial = A decodes and holds >= 2 of {extension, map, oneof, group, packed, unknown, submessage}",
 		Draw: func(t *rapid.T) diffCase {
 			c := diffCase{Type: gen.TypeName(types, rich).Draw(t, "type")}
 			var va *model.Msg
